@@ -47,6 +47,14 @@ def case_factor_kinds(kind, R1, R2, D, cached):
         if m.regs.get(ia) is not None and m.regs.get(ib) is not None:
             fail_if(fails, PROPERTY, f"log_u:{kind}", "expected log-factor differs from the general factor", np.asarray(m.regs[ia]), np.asarray(m.regs[ib]), params=params)
         same(fails, f"product:{kind}", m.regs.get(m.product(f.reg)), m.regs.get(m.product(g)), params)
+        # evaluation, all pairs and element-wise (one point per component)
+        xa = m.arr(gen.points(rng, 3, D)); xe = m.arr(gen.points(rng, R2, D))
+        for ew in (False, True):
+            ea = m.evalln(f.reg, xe if ew else xa, element_wise=ew); eb = m.evalln(g, xe if ew else xa, element_wise=ew)
+            if m.regs.get(ea) is not None and m.regs.get(eb) is not None:
+                fail_if(fails, PROPERTY, f"evaluate_ln:{kind}:element_wise{int(ew)}", "specialised factor evaluates differently from the general factor", np.asarray(m.regs[ea]), np.asarray(m.regs[eb]), params=params)
+            else:
+                fails.append(failure(PROPERTY, f"evaluate_ln:{kind}:element_wise{int(ew)}", "raised", params=params))
         return fails
     return Case(label, fn)
 
